@@ -54,6 +54,9 @@ VARIANTS = {
     "asan":  ["-O1", "-g", "-DNDEBUG", "-fsanitize=address,undefined",
               "-fno-sanitize-recover=all", "-fno-omit-frame-pointer"],
     "tsan":  ["-O1", "-g", "-DNDEBUG", "-fsanitize=thread"],
+    # AddressSanitizer without UBSan (for properties whose inputs necessarily
+    # pass negative 32-bit payloads through rtosc_argument's "byte << 24")
+    "asan-noub": ["-O1", "-g", "-DNDEBUG", "-fsanitize=address", "-fno-omit-frame-pointer"],
     # GCC's post-optimisation call graph (C03)
     "cgraph": ["-O2", "-g", "-DNDEBUG", "-fcallgraph-info"],
 }
